@@ -67,6 +67,7 @@ pub fn config(cases: u32) -> Config {
         cases,
         failure_persistence: None,
         max_shrink_iters: 4096,
+        max_shrink_time: 30_000,
         max_global_rejects: 1_000_000,
         verbose: 0,
         ..Config::default()
